@@ -727,13 +727,25 @@ func (proc *Conproc) Write_verilog(conf *Config, arch *Arch, processor_module_na
 		result += op.Op_instruction_verilog_footer(arch, flavor)
 	}
 
+	// The iN_recv and oN_val registers are declared by the I/O opcodes: without them the handshake lines are tied low
+	hasInputRecv := arch.HasAny([]string{"i2r", "i2rw", "sic", "sicv2", "sicv3"})
+	hasOutputVal := arch.HasAny([]string{"r2o", "r2owa", "r2owaa"})
+
 	for i := 0; i < int(proc.N); i++ {
-		result += "	assign " + Get_input_name(i) + "_received = " + Get_input_name(i) + "_recv;\n"
+		if hasInputRecv {
+			result += "	assign " + Get_input_name(i) + "_received = " + Get_input_name(i) + "_recv;\n"
+		} else {
+			result += "	assign " + Get_input_name(i) + "_received = 1'b0;\n"
+		}
 	}
 
 	for i := 0; i < int(proc.M); i++ {
 		result += "	assign " + Get_output_name(i) + " = _aux" + Get_output_name(i) + ";\n"
-		result += "	assign " + Get_output_name(i) + "_valid = " + Get_output_name(i) + "_val;\n"
+		if hasOutputVal {
+			result += "	assign " + Get_output_name(i) + "_valid = " + Get_output_name(i) + "_val;\n"
+		} else {
+			result += "	assign " + Get_output_name(i) + "_valid = 1'b0;\n"
+		}
 	}
 
 	result += "endmodule\n"
@@ -743,9 +755,12 @@ func (proc *Conproc) Write_verilog(conf *Config, arch *Arch, processor_module_na
 	for _, op := range proc.Op {
 		modlist, modcode := op.Op_instruction_verilog_extra_modules(arch, flavor)
 		for i, module := range modlist {
-			if _, ok := doneextramod[module]; !ok {
+			// Several opcodes label their helper module in the same way ("adder", "multiplier", "divider")
+			// even if the modules differ: skip only what has already been written
+			moduleKey := module + "\n" + modcode[i]
+			if _, ok := doneextramod[moduleKey]; !ok {
 				result += modcode[i]
-				doneextramod[module] = true
+				doneextramod[moduleKey] = true
 			}
 		}
 
